@@ -322,7 +322,7 @@ def one_random(col, rng):
                      lambda t: list(itertools.chain.from_iterable(unwrap(spelling, t))), [], lazy=True,
                      desc='%s of %s' % (cname, short(elems)))
         else:
-            iname, ifn = rng.choice([('list', list), ('tuple', tuple), ('list0', lambda: [0]), ('default', None)])
+            iname, ifn = rng.choice([('list', list), ('tuple', tuple), ('list0', lambda: [0]), ('default', None), ('dedup-list', DedupList)])
             if ifn is None:
                 init, mk, counters, ifn2 = None, (lambda: Flatten(sub) if sub is not T or rng.random() < 0.5 else Flatten()), [], list
             else:
@@ -442,6 +442,34 @@ def one_random(col, rng):
             col.sample({'call': 'merge(target, %s)' % short(kw), 'input': short(elems)}, fam)
 
 
+class DedupList(list):
+    """an accumulator that IS a list but has its own += (keeps the first occurrence of every element)"""
+    def __iadd__(self, other):
+        for x in other:
+            if x not in self:
+                self.append(x)
+        return self
+
+
+def same_spec_object_on_iterable_then_not(col):
+    """one reduction object with a subspec, evaluated on a target whose sub-target is iterable and then on one whose sub-target
+    is not: the second evaluation raises FoldError like a fresh object would (and an enclosing Coalesce / default= catches it)"""
+    for name, mk in (('Sum', lambda: Sum('a')), ('Flatten', lambda: Flatten('a')), ('Merge', lambda: Merge(T['a'])), ('Fold', lambda: Fold('a', init=int))):
+        spec = mk()
+        good = {'a': [{'k': 1}]} if name == 'Merge' else {'a': [[1], [2]]} if name == 'Flatten' else {'a': [1, 2]}
+        for i, (target, iterable) in enumerate([(good, True), ({'a': 5}, False), (good, True), ({'a': None}, False)]):
+            got = call(G, target, spec)
+            col.case(('iterable-then-not', name, i), True)
+            col.count('non_iterable_cases')
+            if iterable != got.ok or (not got.ok and not isinstance(got.exc, FoldError)):
+                col.violation('C15/non-iterable-not-FoldError:reused-' + name, 'evaluation #%d of one %s object on %r: %r, expected %s'
+                              % (i + 1, name, target, got, 'a value' if iterable else 'FoldError'), None)
+                break
+        got = call(G, {'a': 5}, mk(), default='DFLT')
+        if not got.ok or got.value != 'DFLT':
+            col.violation('C15/non-iterable-not-FoldError:default', 'glom({a: 5}, %s, default=..): %r' % (name, got), None)
+
+
 def non_iterables(col):
     class NoIter:
         def __repr__(self):
@@ -477,5 +505,6 @@ def run(ctx):
     col.require('init_calls_checked', 300)
     if ctx.shard == 0:
         non_iterables(col)
+        same_spec_object_on_iterable_then_not(col)
     for i in range(ctx.n(20000, 100000)):
         one_random(col, rng)
